@@ -16,6 +16,7 @@ from ..engine.runner import Rule
 from ..engine.source import AnalysisError
 from ..engine.sqlfront import split_conjuncts, tokenize
 from . import shared
+from . import C11
 from .common import callee_name, calls_in
 
 EXPLANATION = (
@@ -560,6 +561,7 @@ RULES = [
     Rule("R-C10-5", "wake-ups after eligibility-changing events", rule_wakeups, min_instances=9),
     Rule("R-C10-6", "job_loop returns only after an empty poll", rule_loop_exit, min_instances=3),
     Rule("R-C10-7", "defer cap", rule_defer_cap, min_instances=5),
+    Rule("R-C10-8", "'needed' is computed from attached consumers, targets and declared need", C11.rule_read_set, min_instances=10),
 ]
 
 
